@@ -166,6 +166,7 @@ typedef struct Endpoint {
 	int eof_seen, eof_ret;
 	int data_after_fail;            /* recv returned application bytes though it must not */
 	int recv_errs;                  /* recv calls that returned an error (not EOF, not EAGAIN) */
+	int odd_sent;                   /* protected records of another inner type this endpoint sent between its writes (cred_mode 512) */
 	uint64_t first_err_at; int first_err_at_set, first_err_ret;
 	uint64_t got_after_err;         /* genuine in-order bytes delivered after an error return */
 	uint64_t rd_calls, wr_calls;
@@ -239,7 +240,7 @@ typedef struct HonestOut {
 	int io_err[2]; char io_err_what[2][128];
 	int eof_ok;
 	int data_after_fail[2];
-	int recv_errs[2];
+	int recv_errs[2], odd_sent[2];
 	uint64_t got_after_err[2];
 	uint64_t hs_done_step[2];
 	int nrecs[2];
